@@ -129,6 +129,59 @@ func (r *Run) EmitGuardRef(name string, scope Scope) error {
 	return writeJSON(refPath(name), ri)
 }
 
+var funcKeyTokenRe = regexp.MustCompile(`pkg/[\w/]+\.(?:\(\*?\w+\)\.)?\w+`)
+
+// normRenamed makes inventory keys independent of the names of unexported functions that were renamed
+// (or newly introduced) since the references were frozen: a reference token naming an unexported function
+// that no longer exists, and a current token naming an unexported function no reference knows, both
+// become `<package>.<renamed>`.
+func (r *Run) normRenamed(s string) string {
+	if r.G.known == nil || !strings.Contains(s, "pkg/") {
+		return s
+	}
+	if r.curKeys == nil {
+		r.curKeys = map[string]bool{}
+		for f := range r.Prog.Funcs {
+			r.curKeys[FuncKey(f)] = true
+		}
+	}
+	return funcKeyTokenRe.ReplaceAllStringFunc(s, func(tok string) string {
+		i := strings.LastIndexByte(tok, '.')
+		name := tok[i+1:]
+		if name == "" || !(name[0] >= 'a' && name[0] <= 'z') {
+			return tok
+		}
+		gone := r.G.known[tok] && !r.curKeys[tok]
+		fresh := !r.G.known[tok] && r.curKeys[tok]
+		if gone || fresh {
+			pk := tok[:i]
+			if j := strings.Index(pk, ".("); j >= 0 {
+				pk = pk[:j]
+			}
+			return pk + ".<renamed>"
+		}
+		return tok
+	})
+}
+
+func (r *Run) normInv(inv Inventory) Inventory {
+	out := Inventory{}
+	for k, c := range inv {
+		nk := r.normRenamed(k)
+		if o := out[nk]; o != nil {
+			m := *o
+			m.Total += c.Total
+			m.Must += c.Must
+			m.Args = append(append([]string{}, o.Args...), c.Args...)
+			m.Tags = append(append([]string{}, o.Tags...), c.Tags...)
+			out[nk] = &m
+		} else {
+			out[nk] = c
+		}
+	}
+	return out
+}
+
 func invIncludes(now, ref Inventory) (missing []string) {
 	keys := []string{}
 	for k := range ref {
@@ -211,7 +264,7 @@ func (r *Run) CheckGuardInventory(rule, name string, scope Scope, minFuncs int) 
 			found := ""
 			for k2, fd2 := range byKey {
 				if strings.HasPrefix(k2, pkgPrefix+".") && ri.Functions[k2] == nil {
-					if len(invIncludes(scope.filterInv(r.G.InventoryOf(fd2)), ref)) == 0 {
+					if len(invIncludes(r.normInv(scope.filterInv(r.G.InventoryOf(fd2))), r.normInv(ref))) == 0 {
 						found = k2
 						break
 					}
@@ -224,8 +277,8 @@ func (r *Run) CheckGuardInventory(rule, name string, scope Scope, minFuncs int) 
 			r.FailKind("anchor-unresolved", rule, k, "function of the reference inventory no longer exists and no function of its package carries its guards")
 			continue
 		}
-		now := scope.filterInv(r.G.InventoryOf(fd))
-		missing := invIncludes(now, ref)
+		now := r.normInv(scope.filterInv(r.G.InventoryOf(fd)))
+		missing := invIncludes(now, r.normInv(ref))
 		pos := r.Prog.RelPos(fd.Decl.Pos())
 		if len(missing) == 0 {
 			r.Pass(rule, k, pos, fmt.Sprintf("%d guard signatures present", len(ref)))
